@@ -20,9 +20,8 @@ Import ListNotations.
     lines into files, read in list order through the multi-file yielder, plain
     or gz / xz compressed (codec = identity on content: [stored_as]), delivers
     the triple stream of the single raw string -- provided blank lines are
-    harmless: the reader is blank-silent (N-Triples: hypothesis) or there is
-    no blank line (TSV: a blank line in a *file* crashes the reader, finding
-    C08-F5, while the raw-string line reader drops it). *)
+    harmless: the reader is blank-silent (N-Triples: hypothesis; TSV: proved
+    below, since the fix of C08-F5) or there is no blank line. *)
 Theorem C08_partition_invisible :
   forall pyfloat read_nt read_ttl gunzip unxz unzip rdf_parse fmt read o o' cm lss stored,
     line_family pyfloat read_nt fmt read -> line_compositional read ->
@@ -73,19 +72,25 @@ Theorem C08_tsv_line_compositional : forall pyfloat, line_compositional (read_ts
 Proof. exact read_tsv_compositional. Qed.
 Print Assumptions C08_tsv_line_compositional.
 
-(** hence, for TSV documents without blank lines, with no hypothesis on any reader *)
+(** the TSV reader discards a blank line (counted, no triple, no exception):
+    this is the repaired [log_msg] call, [Gen.Consts.c08_tsv_discard_log_fits] *)
+Theorem C08_tsv_blank_silent : forall pyfloat, blank_silent (read_tsv pyfloat).
+Proof. exact read_tsv_blank_silent. Qed.
+Print Assumptions C08_tsv_blank_silent.
+
+(** hence, for TSV, with no hypothesis on any reader and blank lines allowed *)
 Theorem C08_partition_invisible_tsv :
   forall pyfloat read_nt read_ttl gunzip unxz unzip rdf_parse o o' cm lss stored,
-    Forall (fun l => nonblank l = true) (List.concat lss) ->
     cm_plain cm -> Forall (Forall line_ok) lss ->
     Forall2 (stored_as gunzip unxz cm) (map render_lines lss) stored ->
     rd_stream (channel pyfloat read_nt read_ttl gunzip unxz unzip rdf_parse o (Str "tsv_spo") cm (SFiles stored))
     = rd_stream (channel pyfloat read_nt read_ttl gunzip unxz unzip rdf_parse o' (Str "tsv_spo") None
                          (SRaw (render_lines (List.concat lss)))).
 Proof.
-  intros pyfloat read_nt read_ttl gunzip unxz unzip rdf_parse o o' cm lss stored Hnb.
+  intros pyfloat read_nt read_ttl gunzip unxz unzip rdf_parse o o' cm lss stored.
   exact (partition_invisible_files pyfloat read_nt read_ttl gunzip unxz unzip rdf_parse _ _ o o' cm lss stored
-                                   (Fam_tsv pyfloat read_nt) (read_tsv_compositional pyfloat) (or_intror Hnb)).
+                                   (Fam_tsv pyfloat read_nt) (read_tsv_compositional pyfloat)
+                                   (or_introl (read_tsv_blank_silent pyfloat))).
 Qed.
 Print Assumptions C08_partition_invisible_tsv.
 
@@ -135,8 +140,10 @@ Proof. exact profile_same_ids. Qed.
 Print Assumptions C08_feature_pass_same_ids.
 
 (** ** (c) every accepted (format, compression, source kind) combination
-    reaches the documented yielder -- on [dispatch_dom]; the two excluded
-    families are refuted below.  The proof evaluates the dispatch tables
+    reaches the documented yielder -- on [dispatch_dom]; the excluded family
+    (a URL with a format rdflib does not parse) is refuted below; a
+    compression mode given with a raw string or an rdflib graph is ignored
+    (since the fix of C08-F3).  The proof evaluates the dispatch tables
     [Gen.Consts.c08_chain], [c08_helpers], ... regenerated from
     triple_yielders_factory.py. *)
 Theorem C08_dispatch_total :
@@ -145,6 +152,14 @@ Theorem C08_dispatch_total :
     exists d, dispatch fmt cm k = inl d /\ class_name d = expected_class fmt cm k.
 Proof. exact dispatch_total. Qed.
 Print Assumptions C08_dispatch_total.
+
+(** ** rdflib channels type a literal as the N-Triples reader does, for every
+    lexical form (since the fix of C08-F1: the literal's own language and
+    datatype decide, not a text search in the content) *)
+Theorem C08_rdflib_literal_typing :
+  forall lex k, exists content, turn_literal (rlit_of lex k) = inl (MLit content (dt_of k)).
+Proof. exact turn_literal_kinded. Qed.
+Print Assumptions C08_rdflib_literal_typing.
 
 (** ** (d) the TSV channel reads N-Triples semantics *)
 Theorem C08_tsv_reads_nt_semantics :
@@ -278,35 +293,25 @@ Example C08_bnode_stable_labels_fine :
                (run_shexc BAlg ex_cfg ex_thr (rename f_one g_bnode_inst)) = false.
 Proof. vm_compute. reflexivity. Qed.
 
-(** C08-F1: a plain literal whose content holds an at-sign is typed
-    rdf:langString on every rdflib channel (the test meant for quoted tokens
-    is applied to the bare lexical form) and xsd:string by the N-Triples / TSV
-    readers: the datatype of the constraint depends on the channel *)
-Lemma C08_at_sign_plain_literal_refuted :
-  exists lex,
-    turn_literal (RL lex None None) = inl (MLit lex c_LANG_STRING_TYPE)
-    /\ parse_literal (Q :: lex ++ [Q]) = inl (MLit lex c_STRING_TYPE).
-Proof. exists (Str "user@example.org"). split; vm_compute; reflexivity. Qed.
+(** C08-F1 (fixed): a plain literal holding an at-sign is xsd:string on the rdflib channels too *)
+Example C08_at_sign_plain_literal_regression :
+  turn_literal (RL (Str "user@example.org") None None) = inl (MLit (Str "user@example.org") c_STRING_TYPE)
+  /\ parse_literal (Q :: Str "user@example.org" ++ [Q]) = inl (MLit (Str "user@example.org") c_STRING_TYPE).
+Proof. split; vm_compute; reflexivity. Qed.
 
-(** C08-F5: the TSV reader is not blank-silent -- a discarded line (blank
-    lines included) is logged through a call that does not fit [log_msg]'s
-    signature: TypeError.  The raw-string line reader drops blank lines, the
-    file readers deliver them: the same TSV text works as a raw string and
-    crashes as a file. *)
-Lemma C08_tsv_blank_line_refuted :
-  exists doc,
-    rd_stream (ex_chan (Str "tsv_spo") None (SFile doc)) = inr CEType
-    /\ exists ms, rd_stream (ex_chan (Str "tsv_spo") None (SRaw doc)) = inl ms /\ ms <> [].
-Proof.
-  exists (render_lines [tsv_line_of (AT (AIri (Str "http://e/a")) (Str "http://e/p") (AN (AIri (Str "http://e/b")))); []]).
-  split; [vm_compute; reflexivity|]. eexists. split; [vm_compute; reflexivity | discriminate].
-Qed.
+(** C08-F5 (fixed): a TSV text with a blank line is the same stream as a file and as a raw string *)
+Example C08_tsv_blank_line_regression :
+  let doc := render_lines [tsv_line_of (AT (AIri (Str "http://e/a")) (Str "http://e/p") (AN (AIri (Str "http://e/b")))); []] in
+  rd_stream (ex_chan (Str "tsv_spo") None (SFile doc)) = rd_stream (ex_chan (Str "tsv_spo") None (SRaw doc))
+  /\ exists ms, rd_stream (ex_chan (Str "tsv_spo") None (SFile doc)) = inl ms /\ ms <> [].
+Proof. split; [vm_compute; reflexivity|]. eexists. split; [vm_compute; reflexivity | discriminate]. Qed.
 
-(** C08-F3: compression_mode zip with a raw string or an rdflib Graph object
-    is accepted by the constructor and then fails with TypeError *)
-Lemma C08_dispatch_zip_nonfile_refuted :
-  exists fmt cm k, accepted fmt cm k /\ dispatch fmt cm k = inr CEType.
-Proof. exists (Str "nt"), (Some (Str "zip")), KRaw. split; [exact accepted_zip_raw | reflexivity]. Qed.
+(** C08-F3 (fixed): compression_mode zip with a raw string or an rdflib graph has nothing to unzip *)
+Example C08_dispatch_zip_nonfile_regression :
+  accepted (Str "nt") (Some (Str "zip")) KRaw
+  /\ dispatch (Str "nt") (Some (Str "zip")) KRaw = inl (YPlain (Str "NtTriplesYielder"))
+  /\ dispatch (Str "nt") (Some (Str "zip")) KGraph = inl (YPlain (Str "RdflibTripleYielder")).
+Proof. split; [exact accepted_zip_raw | split; reflexivity]. Qed.
 
 (** C08-F4: a URL source with a format rdflib does not parse is accepted by
     the constructor and fails at the first extraction with ValueError *)
